@@ -106,6 +106,20 @@ CLAIMED = {
               "Float = libm. Not proved: that the gate's per-command comparison implies geometric image (interp-level), arcs."),
         technique="Lean 4 proof (control-structure soundness on the Float model) + ulp-level correspondence + independent re-verification",
         ref="DESIGN.md §4 C20"),
+    "C01": dict(
+        text=("A Lean 4 model of the whole conversion pipeline (tree, cascade, traversal, cleanup passes, shape cache and flush, "
+              "groups, use, nested svg, gradients, _simplify with clip resolution and stroke split, tidy passes, gate) with Skia as a "
+              "replayed oracle tape is tied to SVG.topicosvg on every run: output trees must be equal and the sequence of Skia "
+              "questions identical. Theorems: the final gate is sound for the element-path half of the grammar for trees of any "
+              "size (clean gate => every traversed element is on the allow list, which admits only svg/defs/gradients/stop/path/g "
+              "and, with allow_text, text tags); a group survives only with attributes, >= 2 children and clamped opacity strictly "
+              "between 0 and 1 (ordered field); decimal rounding is idempotent with the half-unit bound (Q); command-letter target "
+              "forms (C09). The complete grammar (Spec/Pico.lean, executable) is checked on every normal return of the library and "
+              "a CLI sample. Not a closed theorem yet: 'toPico = ok d' implies no grammar violation' for the pipeline model."),
+        note=("Trusted: Lean kernel; propext/Classical.choice/Quot.sound; Spec/Pico.lean; lxml; the differential tie "
+              "(harness/pipeline.py, oracle.py). One defect repaired (underfull groups after pruning)."),
+        technique="Lean 4 proof (induction over the gate scan, order reasoning, Q arithmetic) + pipeline-model correspondence with replayed Skia oracle + executable-grammar search",
+        ref="DESIGN.md §4 C01"),
 }
 
 def main():
